@@ -228,8 +228,26 @@ def run(ctx):
             ln = dict(c, obs=obs, obsn=obsn, via=via + ("-defaults-omitted" if od else ""), src="A" if i < len(cases) else "B", nprev=len(h))
             lines.append(ln)
             h.append(len(lines) - 1)
+    # ---- S: the same comparisons far outside the small domain: every value and literal moved up by 2^53 / 2^63 / 2^64 on the real
+    # side (exact integers and exactly representable floats only); the relations are translation invariant, so the specification's
+    # verdict on the small values is the verdict (an int must not be compared through a float, a literal not parsed through one)
+    nshift = 0
+    for i, c in enumerate(cases):
+        if c["kind"] not in ("cmp", "cond"):
+            continue
+        B = (2 ** 53, 2 ** 63, 2 ** 64)[i % 3]
+        rc = crit.shifted(c, B)
+        if rc is None:
+            continue
+        via, od = (("ctor", False), ("xml", False), ("xml", True))[i % 3] if crit.xml_ok(c["expr"]) else ("ctor", False)
+        obs, obsn = crit.observe(rc["kind"], rc["expr"], rc["env"], rc["cur"], via, od)
+        lines.append(dict(c, obs=obs, obsn=obsn, via=via + ("-defaults-omitted" if od else ""), src="S", nprev=0, shiftp=(53, 63, 64)[i % 3]))
+        nshift += 1
+    ctx.extra["S_cases_shifted"] = nshift
+    if nshift < 500:
+        ctx.vacuity(f"only {nshift} shifted comparison cases")
     for ln in lines:
-        ctx.count((ln["src"], ln["via"], repr(ln["expr"]), repr(ln["env"]), repr(ln["cur"])))
+        ctx.count((ln["src"], ln["via"], repr(ln["expr"]), repr(ln["env"]), repr(ln["cur"]), ln.get("shiftp", 0)))
     rej = tables.validate_lines(ctx, "Trace_Criteria", lines, "crit", jobs=16)
     for idx, clause in rej.items():
         ln = lines[idx]
@@ -238,6 +256,9 @@ def run(ctx):
             raise core.MachineryError(f"Criteria.tla fails its own duality check on {ln['expr']}")
         sig = f"C06/{ln['kind']}/{'exception' if ln['obs'] == 'X' else 'wrong-' + ln['obs']}/{ln['via'].split('-')[0]}"
         payload = {k: ln[k] for k in ("kind", "expr", "env", "cur", "via")}
+        if ln.get("shiftp"):
+            sig += "/large-values"
+            payload["shiftp"] = ln["shiftp"]
         if ln["nprev"]:
             via, od = ln["via"].split("-")[0], "omitted" in ln["via"]
             if crit.observe(ln["kind"], ln["expr"], ln["env"], ln["cur"], via, od) != (ln["obs"], ln["obsn"]):
@@ -262,7 +283,8 @@ def replay(ctx, obj):
     shared = {}
     for h in obj.get("history", []):
         crit.observe(obj["kind"], obj["expr"], h["env"], h["cur"], via.split("-")[0], "omitted" in via, shared=shared)
-    obs, obsn = crit.observe(obj["kind"], obj["expr"], obj["env"], obj["cur"], via.split("-")[0], "omitted" in via, shared=shared)
+    real = crit.shifted(obj, 2 ** obj["shiftp"]) if obj.get("shiftp") else obj
+    obs, obsn = crit.observe(real["kind"], real["expr"], real["env"], real["cur"], via.split("-")[0], "omitted" in via, shared=shared)
     ln = dict(obj, obs=obs, obsn=obsn)
     rej = tables.validate_lines(ctx, "Trace_Criteria", [ln], "replay", jobs=1)
     print("observed:", obs, obsn, "rejected:", rej)
